@@ -235,12 +235,12 @@ func (s *Summ) loops(fn *ssa.Function) []*Loop {
 }
 
 type frame struct {
-	fn       *ssa.Function
-	id       int
-	depth    int
-	bodyOf   *Loop // when summarising a loop body: the loop
-	stopAt   *ssa.BasicBlock // preState: stop when this block is reached
-	onStop   func(*state)
+	fn     *ssa.Function
+	id     int
+	depth  int
+	bodyOf *Loop           // when summarising a loop body: the loop
+	stopAt *ssa.BasicBlock // preState: stop when this block is reached
+	onStop func(*state)
 }
 
 type cont func(st *state, ret []*Val, ri *ssa.Return, end string)
